@@ -181,7 +181,11 @@ func (a *AddrManager) safelyCheckPassword(privPass []byte) error {
 	if err != nil {
 		return err
 	}
-	a.masterKeyPriv.Zero()
+	// a locked check has just derived the master key: clear it again. While unlocked the key
+	// was not derived here and stays, the unlocked operations that follow decrypt with it
+	if !a.unlocked {
+		a.masterKeyPriv.Zero()
+	}
 	return nil
 }
 
